@@ -267,6 +267,8 @@ pub enum FormatPart {
     Literal(String),
     /// Expression to interpolate
     Expr(IrExpr),
+    /// Expression to interpolate with its debug representation (`{expr:?}`)
+    DebugExpr(IrExpr),
 }
 
 /// How a variable is accessed
